@@ -626,7 +626,52 @@ func (a *vzAdv) injectBadProposal() {
 		return n
 	}
 	desc, expect := "", "C05:bad-proposal"
-	switch s.Choose("adv-badph", 7) {
+	switch s.Choose("adv-badph", 8) {
+	case 7: // a valid header whose previous commit proof is a genuine certificate from ANOTHER round, with a nil precommit
+		if ph.Header.Height <= w.cfg.initialHeight {
+			return
+		}
+		p := ph.Header.PrevCommitProof
+		prevH := ph.Header.Height - 1
+		or := p.Round + 1 + uint32(s.Choose("other-round", 2))
+		np := tmconsensus.CommitProof{Round: or, PubKeyHash: p.PubKeyHash, Proofs: map[string][]gcrypto.SparseSignature{}}
+		mainHash := string(ph.Header.PrevBlockHash)
+		a.advSigning = true
+		// the nil precommit comes from a validator the certificate can do without
+		silent := 0
+		for _, c := range []int{w.cfg.nVal - 1, 1 + s.Choose("silent", w.cfg.nVal-1)} {
+			rest := map[int]bool{}
+			for j := 1; j < w.cfg.nVal; j++ {
+				if j != c {
+					rest[j] = true
+				}
+			}
+			if p2, total := a.power(prevH, rest); 3*p2 > 2*total {
+				silent = c
+				break
+			}
+		}
+		for j := 1; j < w.cfg.nVal; j++ {
+			id := a.keyID(prevH, j)
+			if id < 0 {
+				continue
+			}
+			if j == silent {
+				// this one precommitted nil in that other round
+				a.cast(1, prevH, or, "", j)
+				np.Proofs[""] = append(np.Proofs[""], gcrypto.SparseSignature{KeyID: vzKeyID(id), Sig: a.signVote(1, prevH, or, "", j)})
+				continue
+			}
+			a.cast(1, prevH, or, mainHash, j)
+			np.Proofs[mainHash] = append(np.Proofs[mainHash], gcrypto.SparseSignature{KeyID: vzKeyID(id), Sig: a.signVote(1, prevH, or, mainHash, j)})
+		}
+		a.advSigning = false
+		ph.Header.PrevCommitProof = np
+		w.fx.RecalculateHash(&ph.Header)
+		w.fx.SignProposal(context.Background(), &ph, 1)
+		// whether the engine accepts such a header is not judged; what it must never do is file the
+		// other round's signatures under the round it committed in (C05, checked on every view and store write)
+		desc, expect = fmt.Sprintf("re-signed proposal whose previous commit proof is a certificate of round %d (the chain committed in round %d), with one nil precommit", or, p.Round), "valid"
 	case 0: // validator list altered, hashes and signature intact (C07)
 		ph.Header.NextValidatorSet = cp(ph.Header.NextValidatorSet)
 		i := s.Choose("vi", len(ph.Header.NextValidatorSet.Validators))
@@ -1011,7 +1056,13 @@ func runNode(s *vsimcore.Sim, p vsimcore.Params) vsimcore.RunInfo {
 		cfg.initialHeight = uint64(2 + s.Choose("ih", 40))
 	}
 	cfg.powers = make([]uint64, cfg.nVal)
-	switch s.Choose("powers", 3) {
+	switch s.Choose("powers", 4) {
+	case 3:
+		// one validator with negligible power: it can dissent, stay silent or lag without ever deciding anything
+		for i := range cfg.powers {
+			cfg.powers[i] = 100
+		}
+		cfg.powers[cfg.nVal-1] = 1
 	case 0:
 		for i := range cfg.powers {
 			cfg.powers[i] = 100
